@@ -179,6 +179,38 @@ def seeded_variants(prop: str, project: Project) -> list:
     return out
 
 
+def benign_variants(prop: str, project: Project) -> list:
+    """Kept behaviour-preserving refactorings (/verif/benign/<id>/, written by fresh sub-agents and validated with the unedited suite),
+    replayed as twins under the property they were written against and under every property whose check once alarmed on them."""
+    root = os.path.join(os.path.dirname(os.path.dirname(os.path.abspath(__file__))), "benign")
+    out = []
+    if not os.path.isdir(root):
+        return out
+    import json
+
+    for bid in sorted(os.listdir(root)):
+        mp, pp = os.path.join(root, bid, "meta.json"), os.path.join(root, bid, "patch.diff")
+        if not (os.path.exists(mp) and os.path.exists(pp)):
+            continue
+        meta = json.load(open(mp))
+        if prop != meta.get("written_against") and prop not in (meta.get("alarms_when_first_run") or {}):
+            continue
+
+        def read(rel):
+            for m in project.modules.values():
+                if m.relpath == rel:
+                    return m.source
+            with open(os.path.join(project.repo, rel), encoding="utf-8", newline="") as fh:
+                return fh.read()
+
+        try:
+            overlay = apply_unified_diff(open(pp).read(), read)
+        except AnalysisError:
+            continue  # the tree moved on; the refactoring no longer applies
+        out.append(Variant(f"{prop}-benign-{bid}", prop, "twin", f"kept behaviour-preserving refactoring {bid}", overlay))
+    return out
+
+
 def alpha_rename(source: str, suffix: str = "_r") -> str:
     """Behaviour-preserving refactor used as a generic twin: every local variable of every function (not parameters,
     not globals / nonlocals, not names bound by `except ... as` / imports) gets a suffix; the module is re-laid-out."""
@@ -242,6 +274,33 @@ def alpha_rename(source: str, suffix: str = "_r") -> str:
             return node
 
     tree = R().visit(tree)
+    ast.fix_missing_locations(tree)
+    return ast.unparse(tree) + "\n"
+
+
+def reorder_members(source: str) -> str:
+    """Behaviour-preserving refactor used as a generic twin: within every class body the methods / properties are
+    re-ordered (groups of same-named definitions — getter, setter, deleter — stay together and in order; other
+    statements keep their place); top-level functions of a module likewise."""
+    tree = ast.parse(source)
+
+    def reorder(body):
+        slots = [i for i, st in enumerate(body) if isinstance(st, (ast.FunctionDef, ast.AsyncFunctionDef))]
+        if len(slots) < 2:
+            return body
+        groups: dict = {}
+        for i in slots:
+            groups.setdefault(body[i].name, []).append(body[i])
+        # a decorator may name another member of the class (@other.setter is by name; keep groups whole) — reverse group order
+        ordered = [fn for name in reversed(list(groups)) for fn in groups[name]]
+        new = list(body)
+        for i, fn in zip(slots, ordered):
+            new[i] = fn
+        return new
+
+    for node in ast.walk(tree):
+        if isinstance(node, ast.ClassDef):
+            node.body = reorder(node.body)
     ast.fix_missing_locations(tree)
     return ast.unparse(tree) + "\n"
 
@@ -313,7 +372,15 @@ def variants_for(prop: str, project: Project) -> list[Variant]:
                 except Exception:  # pragma: no cover
                     pass
         out.append(Variant(f"{prop}-twin-alpha", prop, "twin", "every local variable of every function renamed (x -> x_r), package re-laid-out", ov2))
-    for v in list(mod.generate(project)) + seeded_variants(prop, project):
+        ov3 = {}
+        for m in project.modules.values():
+            if m.in_scope and "pydantic" not in m.source:  # pydantic runs validators in definition order: re-ordering is not neutral there
+                try:
+                    ov3[m.relpath] = reorder_members(m.source)
+                except Exception:  # pragma: no cover
+                    pass
+        out.append(Variant(f"{prop}-twin-reorder", prop, "twin", "methods of every class re-ordered (same-named accessor groups kept together)", ov3))
+    for v in list(mod.generate(project)) + seeded_variants(prop, project) + benign_variants(prop, project):
         bad = [p for p, t in v.overlay.items() if p.endswith(".py") and not parses(t)]
         if bad:
             raise AnalysisError(f"self-test variant {v.vid} does not parse ({bad})")
